@@ -111,8 +111,11 @@ function runJob(job) {
   if (job.memory) {
     const m = inst.exports[job.memory];
     const buf = Buffer.from(m.buffer);
+    // a memory.grow by tens of thousands of pages succeeds in V8: hash in pieces (one update takes < 2^31 bytes)
+    const h = crypto.createHash('sha256');
+    for (let o = 0; o < buf.length; o += (1 << 30)) h.update(buf.subarray(o, Math.min(buf.length, o + (1 << 30))));
     out.mem = { pages: buf.length / 65536,
-                sha256: crypto.createHash('sha256').update(buf).digest('hex'),
+                sha256: h.digest('hex'),
                 lo: buf.subarray(0, job.memlo || 0).toString('hex') };
   }
   return out;
